@@ -159,7 +159,7 @@ pub fn decode_forest(d: &mut D, p: &Profile) -> Vec<Ca> {
         let module = d.below(p.modules);
         let not_after = d.pick(&[86400i64 * 365, 86400 * 3, 3600 * 6]);
         let versions = (0..p.versions).map(|v| decode_version(d, p, v)).collect();
-        cas.push(Ca { parent, key: i, module, not_after, cert_fault, versions, extra_res: None });
+        cas.push(Ca { parent, key: i, module, not_after, cert_fault, versions, extra_res: None, ta_alt: vec![] });
     }
     // LoopKey(2) needs a grandparent; degrade to LoopKey(1) otherwise
     for i in 0..cas.len() {
@@ -181,7 +181,7 @@ pub fn single_run(words: &[u16], p: &Profile) -> Scenario {
     let mut d = D::new(words);
     let cfg = decode_cfg(&mut d, p.vary_cfg);
     let cas = decode_forest(&mut d, p);
-    let steps = vec![Step { publish: vec![0; cas.len()], fail_modules: vec![], offline: false, stale: None }];
+    let steps = vec![Step { publish: vec![0; cas.len()], fail_modules: vec![], offline: false, stale: None, foreign_tal_key: vec![], ta_serve: vec![] }];
     Scenario { cfg, cas, steps }
 }
 
@@ -281,7 +281,7 @@ pub fn history_run(words: &[u16], hp: &HistProfile) -> Scenario {
             .collect();
         let fail_modules = (0..p.modules).filter(|_| d.chance(hp.fail_module_16, 16)).collect();
         let offline = s > 0 && d.chance(hp.offline_16, 16);
-        steps.push(Step { publish, fail_modules, offline, stale: None });
+        steps.push(Step { publish, fail_modules, offline, stale: None, foreign_tal_key: vec![], ta_serve: vec![] });
     }
     Scenario { cfg, cas, steps }
 }
